@@ -212,6 +212,32 @@ func canonical(t *table, o *opReq, id func() string) []submission {
 	return subs
 }
 
+// reuseSubs: per-connection histories that reuse an operation id.  All socket submissions of a case
+// share one connection per protocol, so a second start / subscribe with the id of the canonical
+// submission is a reuse of that id after the server completed the first operation (data ...,
+// complete) — legal in both protocols, and to be answered like the first.  "client-complete": the
+// client additionally sends its own stop / complete for the finished operation before reusing the id.
+func reuseSubs(subs []submission, which int) []submission {
+	var out []submission
+	for _, s := range subs {
+		if s.WS == nil || s.Role != "canonical" {
+			continue
+		}
+		e := *s.WS
+		label := "reuse-id"
+		if which == 1 {
+			label = "reuse-id-after-client-complete"
+			stop := "stop"
+			if e.Proto == "tws" {
+				stop = "complete"
+			}
+			e.Pre = []string{frameText("it", stop, e.ID, nil)}
+		}
+		out = append(out, submission{Transport: s.Transport, Role: "alias", Label: label, WS: &e})
+	}
+	return out
+}
+
 func withNulls(o *opReq) *J {
 	kvs := []kv{{"query", jstr(o.Query)}}
 	if o.Vars != nil {
@@ -743,7 +769,9 @@ func main() {
 					cfg, feat, o, idx := cfg, feat, o, h.Index()
 					h.Case(func(r *rng.R) sexp.Node {
 						t := &table{}
-						return w.run(cfg, feat, o, t, canonical(t, o, ids(idx)))
+						subs := canonical(t, o, ids(idx))
+						subs = append(subs, reuseSubs(subs, idx%2)...)
+						return w.run(cfg, feat, o, t, subs)
 					})
 				}
 			}
@@ -862,6 +890,9 @@ func main() {
 				}
 				if !o.Sub && r.Chance(1, 8) {
 					subs = append(subs, *rawGetSub(r.Intn(len(rawVarTexts)), rng.Pick(r, []string{"variables", "variables", "extensions"})))
+				}
+				if r.Chance(1, 4) {
+					subs = append(subs, reuseSubs(subs[:len(canonical(&table{}, o, ids(0)))], r.Intn(2))...)
 				}
 				if r.Chance(1, 40) {
 					subs = append(subs, preInitSub(t, o, rng.Pick(r, []string{"gws", "tws"}), id))
